@@ -339,14 +339,14 @@ def run(ctx):
     for firsts in hist.split(nf, ctx.pick(4, 8)):
         jobs.append({"mode": "exh", "alphabet": "full", "maxlen": 2, "firsts": firsts})
     for chunk in range(ctx.pick(6, 16)):
-        jobs.append({"mode": "rnd", "chunk": chunk, "nseq": ctx.pick(1500, 5000)})
+        jobs.append({"mode": "rnd", "chunk": chunk, "nseq": ctx.pick(1500, 20000)})
     for chunk in range(ctx.pick(2, 6)):
         jobs.append({"mode": "contract", "chunk": chunk, "nseq": ctx.pick(300, 1500)})
     ctx.extra["alphabet_sizes"] = {"core": nc, "full": nf}
     ctx.exhaustive = False
     ctx.extra["exhaustive_part"] = "all sequences of length <= %d over the core alphabet and <= 2 over the full " \
                                    "alphabet (not extended past a divergence)" % core_len
-    ctx.shard(jobs, timeout=ctx.pick(120, 500))
+    ctx.shard(jobs, timeout=ctx.pick(120, 1500))
     ctx.floor("exhaustive_sequences", ctx.pick(8000, 50000))
     ctx.floor("random_sequences", ctx.pick(4500, 40000))
     for h in ("add_changed", "add_rejected", "move_changed", "move_rejected", "rename_changed", "rename_rejected",
